@@ -142,6 +142,28 @@ def _run(ctx):
     rep.rule("TX-3", "one wrapping sequence generator per message type", floor=5)
     rep.rule("TX-4", "every frame is packet_buffer[..serialize(..)]", floor=8)
     rep.rule("TX-6", "timestamp split into seconds / nanoseconds / sub-ns correction", floor=4)
+    rep.rule("TX-8", "a sequence number is drawn only where the message it numbers is emitted (Sync/Announce generators "
+                     "only in state Master, Delay_Req only in Slave): ids of emitted messages stay consecutive", floor=3)
+    GEN_STATE = {"sync_seq_ids": {"Master"}, "announce_seq_ids": {"Master"}, "delay_seq_ids": {"Slave"}}
+    for b_ in sorted(prog.bodies.values(), key=lambda x: x.key):
+        if b_.unit.name != "statime-lib" or b_.is_test():
+            continue
+        pv_ = None
+        for bi, t, cal in mir.iter_calls(b_, name="generate"):
+            pv_ = pv_ or df.Prov(b_)
+            f_ = df.named_fields(pv_.op_tree(t["args"][0])) or ()
+            gen = next((g_ for g_ in GEN_STATE if f_ and (f_[-1] == g_ or f_[-1].endswith("__" + g_))), None)   # also `_ref__self__<field>` captures
+            if gen is None:
+                continue
+            states, kills, (ob, obb) = fc.state_at_site(prog, b_, bi)
+            construct = "generate(%s)" % gen
+            if states <= GEN_STATE[gen] and not kills:
+                rep.ok("TX-8", ob.key, construct, detail=sorted(states), where=fc.where(b_, t["sp"][1]))
+            else:
+                rep.violation("TX-8", ob.key, construct,
+                              "%s is advanced where the port state may be %s (the message is only emitted in %s): an id is "
+                              "consumed without a message, so emitted ids are no longer consecutive" % (
+                                  gen, sorted(states), sorted(GEN_STATE[gen])), where=fc.where(b_, t["sp"][1]))
     rep.rule("TX-7", "start_bmca/end_bmca carry every sequence generator, the port identity, config and state over "
                      "to the same-named field", floor=2)
     from rules import fsm_common as _fc
